@@ -96,8 +96,28 @@ Theorem C04_connection_window : forall cfg ops s L, fin cfg ops = Some (s, L) ->
 Proof. exact conn_window. Qed.
 Print Assumptions C04_connection_window.
 
+(* All theorems above assume ([opk_ok], ONew) that a BDP estimate is above the configured stream
+   window and strictly above the configured connection window.  The estimator however starts from
+   65535 whatever InitialWindowSize / InitialConnWindowSize say (dynamic window stays on), and
+   without that hypothesis ([finp]) two more sentences fail:
+   clause 9 - a connection WINDOW_UPDATE with increment uint32(n - limit) = 4294049790 (or 0 when
+   n = limit) is emitted; the framer refuses it and the connection is torn down; *)
+Theorem C04_conn_increment_refuted :
+  exists cfg ops s L, finp cfg ops = Some (s, L) /\ cdead L = true /\
+    run cfg ops = Some [[4294049790; 1; 131070; 131070; 0; 0; 0; 131070; 0]].
+Proof. exact conn_increment_refuted. Qed.
+Print Assumptions C04_conn_increment_refuted.
+
+(* clause 10 - lowering the stream window below pendingUpdate leaves the peer with a negative
+   window while the application has nothing to read and is waiting: a permanent stall. *)
+Theorem C04_shrink_stall_refuted :
+  exists cfg ops s L, finp cfg ops = Some (s, L) /\ ldead L = false /\ sshrunk L = true /\
+    deliv L = readb L /\ want L = 5 /\ win L = -68925.
+Proof. exact shrink_stall_refuted. Qed.
+Print Assumptions C04_shrink_stall_refuted.
+
 (* The executable predicate that is evaluated on implementation traces (clauses 1-4, 7, 8;
-   5 and 6 are the refuted sentences above) holds on every trace of the model, for every
+   5, 6, 9, 10 are the refuted sentences above) holds on every trace of the model, for every
    well-formed operation list; and well-formed lists are exactly those [fin] is defined on. *)
 Theorem C04_holds_on_every_model_trace : forall cfg ops, wf cfg ops = true ->
   exists obs, run cfg ops = Some obs /\ holds_b cfg ops obs = true.
